@@ -1423,6 +1423,11 @@ func (c *Conn) readLine() (string, error) {
 		// error: the idle timeout must not turn half a line into a command.
 		return "", c.lineLimitReader.timeoutErr
 	}
+	if err == nil && c.lineLimitReader.readErr != nil && c.lineLimitReader.lastByte != '\n' && c.text.R.Buffered() == 0 {
+		// Likewise when the connection ended in the middle of a line: the
+		// peer never sent that command.
+		return "", c.lineLimitReader.readErr
+	}
 	if err == nil && c.lineLimitReader.LineLimit > 0 && c.lineLimitReader.curLineLength > c.lineLimitReader.LineLimit {
 		// bufio hands out what it has buffered of a too long line before it
 		// reports the error.
